@@ -16,12 +16,15 @@
       Tie to the programs: `C13_earclip_kernel_triangles`, `C13_fan_kernel_star` — a successful run of
       `earclip_cell_*` / `fan_cell` read an n-gon (n ≥ 4), had 2(n-3) spare darts, and performed exactly the
       vertex-list computation (`earclipLoop_ok`).
-  (e) fan: `C13_D7_witness` — "the accepted apex sees the whole polygon" is FALSE (CCW pentagon, apex 0 accepted,
-      triangle (v0,v1,v2) has cross product −4); `C13_fan_orientation_partial` — it is true under the hypothesis
-      excluding D7 (the never-examined side (v1,v2) has the common sign) plus non-degeneracy of the first examined
-      triangle, whose magnitude the code does not test; `fanTest_true` states exactly what the search establishes;
-      `C13_fan_accepts_convex_ccw` — positively oriented triangles of magnitude ≥ ε from apex 0 ⇒ apex 0 is
-      returned (no `NonFannable` on such convex polygons).
+  (e) fan (since /repo 00af791 the search examines every side, the closing one included, minus the two incident to
+      the candidate): `C13_fan_star_sees_every_side` — if the star test accepts apex k then
+      cross(v_k, v_i, v_{(i+1) mod n}) has one sign for EVERY side not incident to v_k, strictly (magnitude ≥ ε) for
+      all of them except the first examined side (smallest index), which the code only sign-tests: weak sign there;
+      `C13_fan_apex_sees_all` — with no side collinear with the apex, all fan triangles have one strict
+      orientation: the apex sees the whole polygon; `fanTest_true` states exactly what the search establishes;
+      `C13_fan_accepts_convex_ccw` — positively oriented triangles of magnitude ≥ ε from apex 0 ⇒ apex 0 is returned
+      (no `NonFannable` on such convex polygons).  The pentagon of the former finding D7 is no longer fanned from apex 0 but from its reflex vertex, a genuine
+      star point (`example`s); a simple hexagon without star vertex is refused with `NonFannable`.
 
   NOT PROVED (validated on every case by the oracle of tools/props/c13.py)
   * "ear clipping succeeds on every simple polygon in general position" (two-ears theorem; not in Mathlib);
@@ -30,9 +33,7 @@
     well-formedness through the sew loops;
   * coordinates unchanged (vertex data only moves through `avg v v = v` and the final `write_vertex`);
   * the orientation of the LAST triangle left by ear clipping (the code does not test it);
-  * the clockwise twin of `C13_fan_accepts_convex_ccw`, and apex 1 in the partial theorem (the only other apex the
-    search can return; its zero first cross product takes the sign of an f64 signed zero, modelled by
-    `crossNegZero`).
+  * the clockwise twin of `C13_fan_accepts_convex_ccw`.
 -/
 import Honeycomb.Model.Kernels.EarClip
 import Honeycomb.Lemmas.KernelWF
@@ -576,7 +577,7 @@ theorem C13_fan_area_sum (vs : List P2) (id : Nat) : ((fanTriangles vs id).map t
           rw [cyc_cons det2 a (b :: l) (by simp)]
           simp
 
-/-! ### what the star search establishes, and D7 -/
+/-! ### what the star search establishes -/
 
 theorem signumF_cases (c : Rat) (z : Bool) : signumF c z = 1 ∨ signumF c z = -1 := by
   unfold signumF; split
@@ -589,185 +590,198 @@ theorem signumF_cases (c : Rat) (z : Bool) : signumF c z = 1 ∨ signumF c z = -
 
 theorem eps_pos : (0 : Rat) < eps := by unfold eps; norm_num
 
+/-- `signum` alone gives the weak sign (a vanishing cross product has `signum = ±1` by the sign of its zero) -/
+theorem weak_of_signum (c : Rat) (z : Bool) : (signumF c z = 1 → 0 ≤ c) ∧ (signumF c z = -1 → c ≤ 0) := by
+  unfold signumF
+  constructor
+  · intro h
+    by_cases h1 : c > 0
+    · exact le_of_lt h1
+    · rw [if_neg h1] at h
+      by_cases h2 : c < 0
+      · rw [if_pos h2] at h; simp at h
+      · exact not_lt.1 h2
+  · intro h
+    by_cases h1 : c > 0
+    · rw [if_pos h1] at h; simp at h
+    · exact not_lt.1 h1
+
 /-- a cross product with `signum = s` that passed the `abs < epsilon` test has the strict sign `s` -/
 theorem strict_of_signum {c : Rat} {z : Bool} (habs : ¬ ratAbs c < eps) :
     (signumF c z = 1 → 0 < c) ∧ (signumF c z = -1 → c < 0) := by
   have hne : c ≠ 0 := by
     intro h0; apply habs; subst h0; unfold ratAbs; simp; exact eps_pos
-  unfold signumF
-  constructor
-  · intro h
-    by_cases h1 : c > 0
-    · exact h1
-    · rw [if_neg h1] at h
-      by_cases h2 : c < 0
-      · rw [if_pos h2] at h; simp at h
-      · exfalso; apply hne; linarith [not_lt.1 h1, not_lt.1 h2]
-  · intro h
-    by_cases h1 : c > 0
-    · rw [if_pos h1] at h; simp at h
-    · rw [if_neg h1] at h
-      by_cases h2 : c < 0
-      · exact h2
-      · exfalso; apply hne; linarith [not_lt.1 h1, not_lt.1 h2]
+  obtain ⟨w1, w2⟩ := weak_of_signum c z
+  exact ⟨fun h => lt_of_le_of_ne (w1 h) (Ne.symm hne), fun h => lt_of_le_of_ne (w2 h) hne⟩
+
+/-- the cross product the search computes for candidate apex `id` and side `i = (v_i, v_{(i+1) % n})` -/
+def sideCross (vs : List P2) (id i : Nat) : Rat :=
+  cross (vs.getD id default) (vs.getD i default) (vs.getD ((i + 1) % vs.length) default)
+
+/-- its `signum` (sign bit of the f64 value) -/
+def sideSignum (vs : List P2) (id i : Nat) : Int :=
+  signumF (sideCross vs id i)
+    (crossNegZero (vs.getD id default) (vs.getD i default) (vs.getD ((i + 1) % vs.length) default))
+
+/-- the sides examined for candidate `id`: exactly the sides of the polygon that are not incident to `v_id` -/
+theorem mem_fanSegs {n id i : Nat} : i ∈ fanSegs n id ↔ i < n ∧ i ≠ id ∧ (i + 1) % n ≠ id := by
+  unfold fanSegs
+  rw [List.mem_filter, List.mem_range]
+  simp only [Bool.not_eq_true', Bool.or_eq_false_iff, decide_eq_false_iff_not, ne_eq]
 
 /-- the content of an accepted star test: all examined sides but the first have the first one's `signum` and a
-    cross product of magnitude `≥ ε` -/
+    cross product of magnitude `≥ ε`; the first examined side is the one of smallest index -/
 theorem fanTest_true {vs : List P2} {id : Nat} (h : fanTest vs id = some true) :
-    ∃ i0 rest, fanSegs vs.length id = i0 :: rest ∧
-      ∀ i ∈ rest,
-        crossSignum (vs.getD id default) (vs.getD i default) (vs.getD (i + 1) default)
-          = crossSignum (vs.getD id default) (vs.getD i0 default) (vs.getD (i0 + 1) default) ∧
-        ¬ ratAbs (cross (vs.getD id default) (vs.getD i default) (vs.getD (i + 1) default)) < eps := by
+    ∃ i0 rest, fanSegs vs.length id = i0 :: rest ∧ (∀ i ∈ rest, i0 < i) ∧
+      ∀ i ∈ rest, sideSignum vs id i = sideSignum vs id i0 ∧ ¬ ratAbs (sideCross vs id i) < eps := by
   unfold fanTest at h
   simp only at h
   cases hs : fanSegs vs.length id with
   | nil => simp [hs] at h
   | cons i0 rest =>
-      refine ⟨i0, rest, rfl, ?_⟩
-      simp only [hs, List.map_cons, Option.some.injEq, List.all_eq_true, List.mem_map, Bool.and_eq_true,
-        decide_eq_true_eq, Bool.not_eq_true', decide_eq_false_iff_not, forall_exists_index, and_imp] at h
-      intro i hi
-      have := h _ i hi rfl
-      exact ⟨this.1, this.2⟩
+      refine ⟨i0, rest, rfl, ?_, ?_⟩
+      · have hp : (fanSegs vs.length id).Pairwise (· < ·) := by
+          unfold fanSegs
+          exact List.Pairwise.sublist List.filter_sublist List.pairwise_lt_range
+        rw [hs, List.pairwise_cons] at hp
+        exact hp.1
+      · simp only [hs, List.map_cons, Option.some.injEq, List.all_eq_true, List.mem_map, Bool.and_eq_true,
+          decide_eq_true_eq, Bool.not_eq_true', decide_eq_false_iff_not, forall_exists_index, and_imp] at h
+        intro i hi
+        have := h _ i hi rfl
+        exact ⟨this.1, this.2⟩
 
-/-- the sides examined for apex 0 of an `n ≥ 4`-gon: `2, 3, …, n-2` — side 1 `(v1, v2)` is dropped by the filter
-    although it is not incident to the apex (finding D7) -/
-theorem fanSegs_zero (k : Nat) :
-    ∃ rest, fanSegs (k + 4) 0 = 2 :: rest ∧ ∀ i, 3 ≤ i → i < k + 3 → i ∈ rest := by
-  unfold fanSegs
-  have hr : List.range (k + 4 - 1) = 0 :: 1 :: 2 :: List.range' 3 k := by
-    rw [List.range_eq_range']
-    have : k + 4 - 1 = k + 1 + 1 + 1 := by omega
-    rw [this, List.range'_succ, List.range'_succ, List.range'_succ]
-  rw [hr]
-  have c0 : (!((k + 4 + 0) % (k + 4) = 0 || (k + 4 + 0 - 1) % (k + 4) = 0)) = false := by simp
-  have c1 : (!((k + 4 + 1) % (k + 4) = 0 || (k + 4 + 1 - 1) % (k + 4) = 0)) = false := by simp
-  have c2 : (!((k + 4 + 2) % (k + 4) = 0 || (k + 4 + 2 - 1) % (k + 4) = 0)) = true := by
-    have e1 : (k + 4 + 2) % (k + 4) = 2 := by rw [Nat.add_mod_left]; exact Nat.mod_eq_of_lt (by omega)
-    have e2 : (k + 4 + 2 - 1) % (k + 4) = 1 := by
-      have : k + 4 + 2 - 1 = (k + 4) + 1 := by omega
-      rw [this, Nat.add_mod_left]; exact Nat.mod_eq_of_lt (by omega)
-    rw [e1, e2]; decide
-  rw [List.filter_cons_of_neg (by simpa using c0), List.filter_cons_of_neg (by simpa using c1),
-    List.filter_cons_of_pos (by simpa using c2)]
-  refine ⟨_, rfl, ?_⟩
-  intro i h3 hlt
-  rw [List.mem_filter]
-  refine ⟨by rw [List.mem_range']; exact ⟨i - 3, by omega, by omega⟩, ?_⟩
-  have e1 : (k + 4 + i) % (k + 4) = i := by rw [Nat.add_mod_left]; exact Nat.mod_eq_of_lt (by omega)
-  have e2 : (k + 4 + i - 1) % (k + 4) = i - 1 := by
-    have : k + 4 + i - 1 = (k + 4) + (i - 1) := by omega
-    rw [this, Nat.add_mod_left]; exact Nat.mod_eq_of_lt (by omega)
-  simp only [e1, e2, Bool.not_eq_true', Bool.or_eq_false_iff, decide_eq_false_iff_not]
-  omega
+/-- **C13 (e)**: if the star test accepts apex `k`, then `cross(v_k, v_i, v_{(i+1) mod n})` has one sign for EVERY
+    side `i` of the polygon not incident to `v_k` (the closing side included; /repo 00af791 — before, side `k+1` was
+    never examined: finding D7).  Exactly as the code tests it: the sign is STRICT (magnitude `≥ ε`) for every such
+    side except the first examined one `i0` (the non-incident side of smallest index), for which the code only takes
+    `signum` — its cross product has the common sign weakly (it may vanish). -/
+theorem C13_fan_star_sees_every_side {vs : List P2} {k : Nat} (h : fanTest vs k = some true) :
+    ∃ i0, (i0 < vs.length ∧ i0 ≠ k ∧ (i0 + 1) % vs.length ≠ k) ∧
+      (∀ i, i < vs.length → i ≠ k → (i + 1) % vs.length ≠ k → i0 ≤ i) ∧
+      (((∀ i, i < vs.length → i ≠ k → (i + 1) % vs.length ≠ k → i ≠ i0 → eps ≤ sideCross vs k i) ∧
+          0 ≤ sideCross vs k i0) ∨
+       ((∀ i, i < vs.length → i ≠ k → (i + 1) % vs.length ≠ k → i ≠ i0 → sideCross vs k i ≤ -eps) ∧
+          sideCross vs k i0 ≤ 0)) := by
+  obtain ⟨i0, rest, hsegs, hlt, hall⟩ := fanTest_true h
+  have hmem : ∀ i, i < vs.length → i ≠ k → (i + 1) % vs.length ≠ k → i = i0 ∨ i ∈ rest := by
+    intro i h1 h2 h3
+    have : i ∈ fanSegs vs.length k := mem_fanSegs.2 ⟨h1, h2, h3⟩
+    rw [hsegs] at this
+    simpa using this
+  have hi0 : i0 ∈ fanSegs vs.length k := by rw [hsegs]; simp
+  refine ⟨i0, mem_fanSegs.1 hi0, ?_, ?_⟩
+  · intro i h1 h2 h3
+    rcases hmem i h1 h2 h3 with rfl | hr
+    · exact le_refl _
+    · exact le_of_lt (hlt i hr)
+  · have habs : ∀ c : Rat, ¬ ratAbs c < eps → (0 < c → eps ≤ c) ∧ (c < 0 → c ≤ -eps) := by
+      intro c hc
+      unfold ratAbs at hc
+      constructor
+      · intro hp; rw [if_neg (by linarith)] at hc; exact not_lt.1 hc
+      · intro hn; rw [if_pos hn] at hc; linarith [not_lt.1 hc]
+    rcases signumF_cases (sideCross vs k i0) (crossNegZero (vs.getD k default) (vs.getD i0 default)
+        (vs.getD ((i0 + 1) % vs.length) default)) with hs | hs
+    · left
+      refine ⟨fun i h1 h2 h3 h4 => ?_, (weak_of_signum _ _).1 hs⟩
+      rcases hmem i h1 h2 h3 with rfl | hr
+      · exact absurd rfl h4
+      · obtain ⟨a, b⟩ := hall i hr
+        have : 0 < sideCross vs k i := (strict_of_signum b).1 (by unfold sideSignum at a; rw [a]; exact hs)
+        exact (habs _ b).1 this
+    · right
+      refine ⟨fun i h1 h2 h3 h4 => ?_, (weak_of_signum _ _).2 hs⟩
+      rcases hmem i h1 h2 h3 with rfl | hr
+      · exact absurd rfl h4
+      · obtain ⟨a, b⟩ := hall i hr
+        have : sideCross vs k i < 0 := (strict_of_signum b).2 (by unfold sideSignum at a; rw [a]; exact hs)
+        exact (habs _ b).2 this
 
-/-- **C13 (e), partial**: if the star search accepts apex 0 of an `n ≥ 4`-gon, and — this is the hypothesis that
-    excludes finding D7 — the side `(v1, v2)` which the search never examines has the sign of the first examined
-    triangle `(v0, v2, v3)` with magnitude `≥ ε`, and that first triangle (whose magnitude the search does not
-    test either) is not degenerate, then EVERY triangle `(v0, v_i, v_{i+1})`, `1 ≤ i ≤ n-2`, of the fan has the
-    same strict orientation: the apex sees the whole polygon. -/
-theorem C13_fan_orientation_partial (vs : List P2) (k : Nat) (hn : vs.length = k + 4)
-    (h : fanTest vs 0 = some true)
-    (hD7 : crossSignum (vs.getD 0 default) (vs.getD 1 default) (vs.getD 2 default)
-              = crossSignum (vs.getD 0 default) (vs.getD 2 default) (vs.getD 3 default) ∧
-           ¬ ratAbs (cross (vs.getD 0 default) (vs.getD 1 default) (vs.getD 2 default)) < eps)
-    (hfirst : ¬ ratAbs (cross (vs.getD 0 default) (vs.getD 2 default) (vs.getD 3 default)) < eps) :
-    (∀ i, 1 ≤ i → i + 1 < vs.length →
-        0 < cross (vs.getD 0 default) (vs.getD i default) (vs.getD (i + 1) default)) ∨
-    (∀ i, 1 ≤ i → i + 1 < vs.length →
-        cross (vs.getD 0 default) (vs.getD i default) (vs.getD (i + 1) default) < 0) := by
-  obtain ⟨i0, rest, hsegs, hall⟩ := fanTest_true h
-  obtain ⟨rest', hz, hmem⟩ := fanSegs_zero k
-  rw [hn, hz] at hsegs
-  simp only [List.cons.injEq] at hsegs
-  obtain ⟨rfl, rfl⟩ := hsegs
-  have key : ∀ i, 1 ≤ i → i + 1 < vs.length →
-      crossSignum (vs.getD 0 default) (vs.getD i default) (vs.getD (i + 1) default)
-        = crossSignum (vs.getD 0 default) (vs.getD 2 default) (vs.getD 3 default) ∧
-      ¬ ratAbs (cross (vs.getD 0 default) (vs.getD i default) (vs.getD (i + 1) default)) < eps := by
-    intro i h1 h2
-    by_cases e1 : i = 1
-    · subst e1; exact hD7
-    · by_cases e2 : i = 2
-      · subst e2; exact ⟨rfl, hfirst⟩
-      · exact hall i (hmem i (by omega) (by omega))
-  rcases signumF_cases (cross (vs.getD 0 default) (vs.getD 2 default) (vs.getD 3 default))
-      (crossNegZero (vs.getD 0 default) (vs.getD 2 default) (vs.getD 3 default)) with hs | hs
+theorem fanStarFrom_some (vs : List P2) : ∀ (ids : List Nat) (k : Nat),
+    fanStarFrom vs ids = some (some k) → k ∈ ids ∧ fanTest vs k = some true := by
+  intro ids
+  induction ids with
+  | nil => intro k h; simp [fanStarFrom] at h
+  | cons id rest ih =>
+      intro k h
+      unfold fanStarFrom at h
+      cases ht : fanTest vs id with
+      | none => simp [ht] at h
+      | some b =>
+          cases b with
+          | true =>
+              simp only [ht, Option.some.injEq] at h
+              subst h
+              exact ⟨by simp, ht⟩
+          | false =>
+              simp only [ht] at h
+              obtain ⟨a, b⟩ := ih k h
+              exact ⟨by simp [a], b⟩
+
+/-- **C13 (e), "whenever the fan kernel succeeds the chosen apex sees the whole polygon"**: if the star search
+    returns apex `k` and no side is collinear with the apex (general position; this is what makes the first
+    examined side, which the code only sign-tests, strict as well), then every triangle
+    `(v_k, v_i, v_{(i+1) mod n})` over the sides not incident to `v_k` has the same strict orientation. -/
+theorem C13_fan_apex_sees_all (vs : List P2) (k : Nat) (h : fanStar vs = some (some k))
+    (hgp : ∀ i, i < vs.length → i ≠ k → (i + 1) % vs.length ≠ k → sideCross vs k i ≠ 0) :
+    k < vs.length ∧
+    ((∀ i, i < vs.length → i ≠ k → (i + 1) % vs.length ≠ k → 0 < sideCross vs k i) ∨
+     (∀ i, i < vs.length → i ≠ k → (i + 1) % vs.length ≠ k → sideCross vs k i < 0)) := by
+  obtain ⟨hk, ht⟩ := fanStarFrom_some vs _ k h
+  refine ⟨by simpa using hk, ?_⟩
+  obtain ⟨i0, hi0, _, hsign⟩ := C13_fan_star_sees_every_side ht
+  have hne0 := hgp i0 hi0.1 hi0.2.1 hi0.2.2
+  rcases hsign with ⟨a, b⟩ | ⟨a, b⟩
   · left
-    intro i h1 h2
-    obtain ⟨a, b⟩ := key i h1 h2
-    exact (strict_of_signum b).1 (by unfold crossSignum at a; rw [a]; exact hs)
+    intro i h1 h2 h3
+    by_cases e : i = i0
+    · subst e; exact lt_of_le_of_ne b (Ne.symm hne0)
+    · exact lt_of_lt_of_le eps_pos (a i h1 h2 h3 e)
   · right
-    intro i h1 h2
-    obtain ⟨a, b⟩ := key i h1 h2
-    exact (strict_of_signum b).2 (by unfold crossSignum at a; rw [a]; exact hs)
-
-/-- the CCW pentagon of the design round: reflex vertex at index 1 -/
-def d7Pentagon : List P2 := [⟨0, 0⟩, ⟨2, 1⟩, ⟨4, 0⟩, ⟨4, 4⟩, ⟨0, 4⟩]
-
-/-- **D7**: the star search accepts apex 0 of a counter-clockwise pentagon (positive area) although the fan from
-    that apex contains a negatively oriented triangle: "whenever the fan kernel succeeds the chosen apex sees the
-    whole polygon" is false.  Every hypothesis of the partial theorem except the one about side `(v1, v2)`
-    holds. -/
-theorem C13_D7_witness :
-    fanStar d7Pentagon = some (some 0) ∧ fanTest d7Pentagon 0 = some true ∧ 0 < area2 d7Pentagon ∧
-    (∃ t ∈ fanTriangles d7Pentagon 0, tri2 t < 0) ∧
-    ¬ ratAbs (cross (d7Pentagon.getD 0 default) (d7Pentagon.getD 2 default) (d7Pentagon.getD 3 default)) < eps ∧
-    ¬ (crossSignum (d7Pentagon.getD 0 default) (d7Pentagon.getD 1 default) (d7Pentagon.getD 2 default)
-        = crossSignum (d7Pentagon.getD 0 default) (d7Pentagon.getD 2 default) (d7Pentagon.getD 3 default)) := by
-  decide +kernel
-
+    intro i h1 h2 h3
+    by_cases e : i = i0
+    · subst e; exact lt_of_le_of_ne b hne0
+    · linarith [a i h1 h2 h3 e, eps_pos]
 
 /-! ### strictly convex polygons are accepted, and the tie for the fan kernel -/
 
-theorem mem_fanSegs_zero (k i : Nat) (h : i ∈ fanSegs (k + 4) 0) : 2 ≤ i ∧ i < k + 3 := by
-  unfold fanSegs at h
-  rw [List.mem_filter, List.mem_range] at h
-  obtain ⟨h1, h2⟩ := h
-  have e1 : (k + 4 + i) % (k + 4) = i := by rw [Nat.add_mod_left]; exact Nat.mod_eq_of_lt (by omega)
-  simp only [e1, Bool.not_eq_true', Bool.or_eq_false_iff, decide_eq_false_iff_not] at h2
-  obtain ⟨h3, h4⟩ := h2
-  by_cases hi : i = 1
-  · subst hi
-    exfalso; apply h4
-    have : k + 4 + 1 - 1 = k + 4 := by omega
-    rw [this, Nat.mod_self]
-  · omega
-
-/-- **C13, fan on convex polygons**: if every triangle `(v0, v_i, v_{i+1})`, `2 ≤ i ≤ n-2`, is positively oriented
+/-- **C13, fan on convex polygons**: if every triangle `(v0, v_i, v_{i+1})`, `1 ≤ i ≤ n-2`, is positively oriented
     with cross product `≥ ε` (in particular on a strictly convex counter-clockwise polygon with coordinates on a
     lattice coarser than `√ε`), the star search returns apex 0: the kernel does not answer `NonFannable` -/
-theorem C13_fan_accepts_convex_ccw (vs : List P2) (k : Nat) (hn : vs.length = k + 4)
-    (hpos : ∀ i, 2 ≤ i → i < k + 3 → eps ≤ cross (vs.getD 0 default) (vs.getD i default) (vs.getD (i + 1) default)) :
+theorem C13_fan_accepts_convex_ccw (vs : List P2) (hn : 3 ≤ vs.length)
+    (hpos : ∀ i, i < vs.length → i ≠ 0 → (i + 1) % vs.length ≠ 0 → eps ≤ sideCross vs 0 i) :
     fanStar vs = some (some 0) := by
-  have hsig : ∀ i, 2 ≤ i → i < k + 3 →
-      crossSignum (vs.getD 0 default) (vs.getD i default) (vs.getD (i + 1) default) = 1 ∧
-      ¬ ratAbs (cross (vs.getD 0 default) (vs.getD i default) (vs.getD (i + 1) default)) < eps := by
-    intro i h1 h2
-    have := hpos i h1 h2
-    have hp : 0 < cross (vs.getD 0 default) (vs.getD i default) (vs.getD (i + 1) default) := lt_of_lt_of_le eps_pos this
+  have hsig : ∀ i, i ∈ fanSegs vs.length 0 → sideSignum vs 0 i = 1 ∧ ¬ ratAbs (sideCross vs 0 i) < eps := by
+    intro i hi
+    obtain ⟨h1, h2, h3⟩ := mem_fanSegs.1 hi
+    have := hpos i h1 h2 h3
+    have hp : 0 < sideCross vs 0 i := lt_of_lt_of_le eps_pos this
     constructor
-    · unfold crossSignum signumF; rw [if_pos hp]
+    · unfold sideSignum signumF; rw [if_pos hp]
     · unfold ratAbs; rw [if_neg (by linarith)]; linarith
+  have h1mem : 1 ∈ fanSegs vs.length 0 :=
+    mem_fanSegs.2 ⟨by omega, by omega, by rw [Nat.mod_eq_of_lt (by omega)]; omega⟩
   have htest : fanTest vs 0 = some true := by
-    obtain ⟨rest, hz, _⟩ := fanSegs_zero k
     unfold fanTest
-    simp only [hn, hz, List.map_cons, Option.some.injEq, List.all_eq_true, List.mem_map, Bool.and_eq_true,
-      decide_eq_true_eq, Bool.not_eq_true', decide_eq_false_iff_not, forall_exists_index, and_imp]
-    intro cz i hi hcz
-    subst hcz
-    have hmem : i ∈ fanSegs (k + 4) 0 := by rw [hz]; simp [hi]
-    obtain ⟨g1, g2⟩ := mem_fanSegs_zero k i hmem
-    obtain ⟨s1, s2⟩ := hsig i g1 g2
-    obtain ⟨t1, _⟩ := hsig 2 (by omega) (by omega)
-    unfold crossSignum at s1 t1
-    exact ⟨by rw [s1, t1], s2⟩
+    simp only
+    cases hs : fanSegs vs.length 0 with
+    | nil => rw [hs] at h1mem; simp at h1mem
+    | cons i0 rest =>
+        simp only [List.map_cons, Option.some.injEq, List.all_eq_true, List.mem_map, Bool.and_eq_true,
+          decide_eq_true_eq, Bool.not_eq_true', decide_eq_false_iff_not, forall_exists_index, and_imp]
+        intro cz i hi hcz
+        subst hcz
+        obtain ⟨s1, s2⟩ := hsig i (by rw [hs]; simp [hi])
+        obtain ⟨t1, _⟩ := hsig i0 (by rw [hs]; simp)
+        unfold sideSignum sideCross at s1 t1
+        unfold sideCross at s2
+        exact ⟨by rw [s1, t1], s2⟩
   unfold fanStar
-  have : List.range vs.length = 0 :: List.range' 1 (k + 3) := by
-    rw [hn, List.range_eq_range']
-    have : k + 4 = (k + 3) + 1 := by omega
-    rw [this, List.range'_succ]
+  have : List.range vs.length = 0 :: List.range' 1 (vs.length - 1) := by
+    rw [List.range_eq_range']
+    have : vs.length = (vs.length - 1) + 1 := by omega
+    rw [this, List.range'_succ]; simp
   rw [this]
   unfold fanStarFrom
   rw [htest]
@@ -807,7 +821,10 @@ theorem C13_fan_kernel_star (cfg : Cfg Val) (n : Nat) (face : Nat) (nds : List N
 
 /-! ## non-vacuity -/
 
-/-- the pentagon of D7 as an isolated face (darts 1–5) with four spare darts -/
+/-- the CCW pentagon of the design round (reflex vertex at index 1), witness of the former finding D7 -/
+def d7Pentagon : List P2 := [⟨0, 0⟩, ⟨2, 1⟩, ⟨4, 0⟩, ⟨4, 4⟩, ⟨0, 4⟩]
+
+/-- the pentagon as an isolated face (darts 1–5) with four spare darts -/
 def d7Map : Map Val :=
   { (Map.empty 3 6 10 : Map Val) with
     b := #[#[0, 5, 1, 2, 3, 4, 0, 0, 0, 0], #[0, 2, 3, 4, 5, 1, 0, 0, 0, 0], #[0, 0, 0, 0, 0, 0, 0, 0, 0, 0]]
@@ -816,25 +833,53 @@ def d7Map : Map Val :=
            Array.replicate 11 none, Array.replicate 11 none, Array.replicate 11 none,
            Array.replicate 11 none, Array.replicate 11 none] }
 
-/-- D7 on the kernel program itself: `fan_cell` answers `Ok` on the pentagon … -/
+/-- the pentagon is no longer fanned from apex 0 (which fails on side (v1, v2), the side the old search never
+    examined): the search now finds apex 1 — the reflex vertex (2,1), a genuine star point, unreachable before —
+    and the fan from it is a correct triangulation (cross products 8 + 12 + 8 = 28 = 2 × 14, all positive) -/
+example : fanTest d7Pentagon 0 = some false := by decide +kernel
+example : fanStar d7Pentagon = some (some 1) := by decide +kernel
 example : (run (fanCell (stdCfg 3 0) 10 1 [6, 7, 8, 9]) d7Map).1 = .ok () := by decide +kernel
-/-- … while ear clipping triangulates it correctly (cross products 8 + 4 + 16 = 28 = 2 × 14, all positive) -/
+example : ((fanTriangles d7Pentagon 1).map tri2) = [8, 12, 8] := by decide +kernel
+/-- the fan from apex 0, which the old search accepted, contains a clockwise triangle -/
+example : ((fanTriangles d7Pentagon 0).map tri2) = [-4, 16, 16] := by decide +kernel
+/-- ear clipping triangulates it as well (cross products 8 + 4 + 16 = 28) -/
 example : (run (earclipCellCCW (stdCfg 3 0) 10 1 [6, 7, 8, 9]) d7Map).1 = .ok () := by decide +kernel
 example : (earclipTriangles insideCCW 2 d7Pentagon).map (fun l => l.map tri2) = some [8, 4, 16] := by decide +kernel
 example : area2 d7Pentagon = 28 := by decide +kernel
-example : ((fanTriangles d7Pentagon 0).map tri2) = [-4, 16, 16] := by decide +kernel
 
-/-- hypotheses of the partial theorem are satisfiable: a convex pentagon -/
+/-- a simple counter-clockwise hexagon without any star vertex is refused: `NonFannable` -/
+def noStarHexagon : List P2 := [⟨-4, 2⟩, ⟨-5, -2⟩, ⟨5, -5⟩, ⟨-2, -2⟩, ⟨-4, 1⟩, ⟨0, 0⟩]
+
+def noStarMap : Map Val :=
+  { (Map.empty 3 6 13 : Map Val) with
+    b := #[#[0, 6, 1, 2, 3, 4, 5, 0, 0, 0, 0, 0, 0], #[0, 2, 3, 4, 5, 6, 1, 0, 0, 0, 0, 0, 0],
+           #[0, 0, 0, 0, 0, 0, 0, 0, 0, 0, 0, 0, 0]]
+    a := #[#[none, some (.pt (-4) 2 0), some (.pt (-5) (-2) 0), some (.pt 5 (-5) 0), some (.pt (-2) (-2) 0),
+             some (.pt (-4) 1 0), some (.pt 0 0 0), none, none, none, none, none, none],
+           Array.replicate 14 none, Array.replicate 14 none, Array.replicate 14 none,
+           Array.replicate 14 none, Array.replicate 14 none] }
+
+example : 0 < area2 noStarHexagon := by decide +kernel
+example : fanStar noStarHexagon = some none := by decide +kernel
+example : (run (fanCell (stdCfg 3 0) 13 1 [7, 8, 9, 10, 11, 12]) noStarMap).1 = .err errNonFannable := by
+  decide +kernel
+
+/-- hypotheses of the star theorems are satisfiable: a convex pentagon, and a star-shaped hexagon whose only star
+    vertex is at index 3 (apexes ≥ 2 were unreachable before /repo 00af791) -/
 def convexPentagon : List P2 := [⟨0, 0⟩, ⟨4, 0⟩, ⟨6, 3⟩, ⟨3, 6⟩, ⟨0, 4⟩]
 
-example : (∀ i, 1 ≤ i → i + 1 < convexPentagon.length →
-      0 < cross (convexPentagon.getD 0 default) (convexPentagon.getD i default) (convexPentagon.getD (i + 1) default)) ∨
-    (∀ i, 1 ≤ i → i + 1 < convexPentagon.length →
-      cross (convexPentagon.getD 0 default) (convexPentagon.getD i default) (convexPentagon.getD (i + 1) default) < 0) :=
-  C13_fan_orientation_partial convexPentagon 1 rfl (by decide +kernel) (by decide +kernel) (by decide +kernel)
-
 example : fanStar convexPentagon = some (some 0) :=
-  C13_fan_accepts_convex_ccw convexPentagon 1 rfl (by decide +kernel)
+  C13_fan_accepts_convex_ccw convexPentagon (by decide) (by decide +kernel)
+
+example : 0 < convexPentagon.length ∧
+    ((∀ i, i < convexPentagon.length → i ≠ 0 → (i + 1) % convexPentagon.length ≠ 0 → 0 < sideCross convexPentagon 0 i) ∨
+     (∀ i, i < convexPentagon.length → i ≠ 0 → (i + 1) % convexPentagon.length ≠ 0 → sideCross convexPentagon 0 i < 0)) :=
+  C13_fan_apex_sees_all convexPentagon 0 (by decide +kernel) (by decide +kernel)
+
+def starAt3 : List P2 := [⟨4, 0⟩, ⟨2, 1⟩, ⟨4, 4⟩, ⟨0, 0⟩, ⟨4, -4⟩, ⟨2, -1⟩]
+
+example : fanStar starAt3 = some (some 3) := by decide +kernel
+example : fanTest starAt3 3 = some true := by decide +kernel
 
 example : checkRequirements 5 4 = .ok () := (C13_check_requirements_ok_iff 5 4).2 (by omega)
 example : checkRequirements 5 3 = .error (errNotEnoughDarts 1) := C13_check_requirements_not_enough 5 3 (by omega) (by omega)
